@@ -505,7 +505,7 @@ GENERIC = {
     "C04": dict(
         rule="rules with right contexts of every operator shape (multi-character literals, sets, repetition, nullable, `$`, class differences, built-ins) at every priority position, mixed with context-free rules. Non-trivial = distinct (definition, input) pairs in which at least one context evaluation failed and at least one succeeded.",
         nt="nt_C04",
-        parts=[("rctx", "base", 320, 4800, 20, SMALL, BIG)],
+        parts=[("rctx", "base", 320, 4800, 20, SMALL, BIG), ("scope", "base", 60, 800, 20, SMALL, BIG)],
     ),
     "C05": dict(
         rule="definitions with `$` rules in Init / other rule sets / contexts and rules that only complete at end of input; all strings up to a bound (so the input ends at every point). Model-free monitors: fused stream (3 extra next() calls after None), conservation (no character skipped without match or error). Non-trivial = distinct (definition, input) pairs ending outside Init, inside a lexeme, after a rewind, or through a `$` rule.",
